@@ -135,6 +135,35 @@ def format_lets(rng, g):
     ])
 
 
+def scope_branches(rng, g):
+    """names bound inside the parts of if / then / else, of `,` and `||` branches, of closure bodies and captures: each part
+    is a scope of its own; several names of one binder take their values from the stack in a fixed order"""
+    a, b, c = g.lit("c")[0], g.lit("c")[0], g.lit("c")[0]
+    return rng.choice([
+        "let A := %s; if (let A := %s; A) then (let A := %s; A) else (let A := 7; A) A" % (a, b, c),
+        "if (let A := %s;) then (A) else (A)" % a,
+        "if (1) then (let A := %s;) else (let A := %s;) A" % (a, b),
+        "let A := %s; (let A := %s; A, let A := %s; A, A)" % (a, b, c),
+        "(let A := %s; A || let A := %s; A) A" % (a, b),
+        "let A := %s; (let A := %s; ?(0 1 ?eq) || let A := %s; A) A" % (a, b, c),
+        "0 (let A := 1; A add ?(4 ?lt))* " ,
+        "0 (let A := 1; A add ?(4 ?lt))+ A",
+        "let A := %s; 0 (let A := 1; A add ?(3 ?lt))* A" % a,
+        "%s %s [|A B| A, B, B A]" % (a, b),
+        "%s %s %s (|A B C| C B A) [|X Y Z| X, Y, Z]" % (a, b, c),
+        "%s %s (|A B| (|A| A B) A)" % (a, b),
+        "let A := %s; [|A| A] A" % a,
+        "%s [|A| let A := %s; A]" % (a, b),
+        "let A := %s; let B := {A}; (let A := %s; B apply) A" % (a, b),
+        "let F := (let A := %s; {A}); F apply" % a,
+        "let F := (%s (|A| {A {A} apply})); F apply apply" % a,
+        "let A := %s; (let A := %s;) let A := %s; A" % (a, b, c),
+        "%s %s (|A A| A)" % (a, b),
+        "(%s, %s) (|A| let B := A; B) B" % (a, b),
+        "?((let A := %s; A) ?(A)) A" % a,
+    ])
+
+
 def alpha_rename(p, rng):
     """consistently rename the single-capital-letter names of a program"""
     names = sorted(set(re.findall(r"\b[A-Z]\b", p)))
@@ -160,8 +189,8 @@ def run(ctx):
         n = 0
     for _ in range(n):
         k = rng.random()
-        progs.append(binder_program(rng, g) if k < 0.65 else nested_blocks(rng, g) if k < 0.85 else infix_lets(rng, g)
-                     if k < 0.93 else format_lets(rng, g))
+        progs.append(binder_program(rng, g) if k < 0.6 else nested_blocks(rng, g) if k < 0.78 else infix_lets(rng, g)
+                     if k < 0.86 else format_lets(rng, g) if k < 0.92 else scope_branches(rng, g))
     stats, irecs, mrecs = zwcorr.run_programs(ctx, h, progs, theorem="ZwVerif.C03.* / engine = ZwVerif.sem",
                                              label="C03-programs")
     # alpha-renaming on the implementation alone
